@@ -885,6 +885,10 @@ func (c *FnCtx) callFunc(st *State, call *ast.CallExpr, fn *types.Func, recv *Va
 		}
 		st.assume(t)
 	}
+	if ef := c.V.effects[key]; ef != nil && !con.Flags["inline"] && !con.Flags["locks-internally"] {
+		// (a handler that takes the lock itself also does its own logging; its contract says what it leaves pending)
+		c.markPending(st, fn, ef, sig, results)
+	}
 	if c.con != nil {
 		for _, ac := range c.con.AtCall {
 			if ac.Interfere == "after" && (ac.Callee == shortKey(key) || ac.Callee == key) {
@@ -1735,40 +1739,64 @@ func (c *FnCtx) callByEffects(st *State, call *ast.CallExpr, fn *types.Func, rec
 	if sig != nil {
 		rs = c.havocResults(st, sig.Results())
 	}
-	// a data-modifying handler leaves a mutation to be logged iff it reports success and `updated`
-	if handler && has(wr, "Keyspace", "Hooks") {
-		if _, ok := c.V.specs.GhostVars["pending"]; ok {
-			var errv, dv, resv *Val
-			for i := 0; sig != nil && i < sig.Results().Len(); i++ {
-				rt := sig.Results().At(i).Type()
-				if types.Identical(rt, types.Universe.Lookup("error").Type()) {
-					errv = rs[i]
-				}
-				if typeShortName(rt) == "server.commandDetails" {
-					dv = rs[i]
-				}
-				if typeShortName(rt) == "resp.Value" {
-					resv = rs[i]
-				}
-			}
-			p := "true"
-			if errv != nil {
-				p = tEq(errv.T, "0")
-			}
-			if resv != nil && resv.S == SInt {
-				// assumption (listed): a handler that answers with an error-typed value has changed nothing
-				c.decls.declFun("gf_respType", []Sort{SInt}, SInt)
-				p = tAnd(p, tNot(tEq(tApp("gf_respType", resv.T), "45")))
-				c.assumeNote("a command handler that replies with an error-typed value (resp.Error) is assumed to have changed nothing (part of C01's handler contracts)")
-			}
-			if dv != nil {
-				p = tAnd(p, c.fieldOfVal(st, dv, "updated", types.Typ[types.Bool]).T)
-			}
-			st.ghost["pending"] = tOr(c.ghostTerm(st, "pending"), p)
-		}
-	}
+	c.markPending(st, fn, ef, sig, rs)
 	c.closureArgsArbitrary(st, call, nil, append([]*Val{recv}, args...), nil)
 	return rs
+}
+
+// markPending: a data-modifying command handler leaves a mutation to be logged iff it reports success and `updated`
+// (ghost `pending`, cleared by writeAOF). Applied to handlers called through their contract and to handlers framed by
+// their inferred effects alike.
+func (c *FnCtx) markPending(st *State, fn *types.Func, ef *Effects, sig *types.Signature, rs []*Val) {
+	if os.Getenv("VCGO_DEBUG") != "" && fn != nil {
+		fmt.Fprintf(os.Stderr, "markPending %s handler=%v writes=%v nres=%d\n", fn.Name(), c.isHandler(fn), c.V.regionsOf(ef.allWrites()), len(rs))
+	}
+	if fn == nil || ef == nil || !c.isHandler(fn) {
+		return
+	}
+	wr := c.V.regionsOf(ef.allWrites())
+	writes := false
+	for _, r := range wr {
+		if r == "Keyspace" || r == "Hooks" {
+			writes = true
+		}
+	}
+	if !writes {
+		return
+	}
+	if _, ok := c.V.specs.GhostVars["pending"]; !ok {
+		return
+	}
+	var errv, dv, resv *Val
+	for i := 0; sig != nil && i < sig.Results().Len() && i < len(rs); i++ {
+		rt := sig.Results().At(i).Type()
+		if types.Identical(rt, types.Universe.Lookup("error").Type()) {
+			errv = rs[i]
+		}
+		if typeShortName(rt) == "server.commandDetails" {
+			dv = rs[i]
+		}
+		if typeShortName(rt) == "resp.Value" {
+			resv = rs[i]
+		}
+	}
+	p := "true"
+	if errv != nil {
+		p = tEq(errv.T, "0")
+	}
+	if resv != nil && resv.S == SInt {
+		// assumption (listed): a handler that answers with an error-typed value has changed nothing
+		c.decls.declFun("gf_respType", []Sort{SInt}, SInt)
+		p = tAnd(p, tNot(tEq(tApp("gf_respType", resv.T), "45")))
+		c.assumeNote("a command handler that replies with an error-typed value (resp.Error) is assumed to have changed nothing (part of C01's handler contracts)")
+	}
+	if dv != nil {
+		p = tAnd(p, c.fieldOfVal(st, dv, "updated", types.Typ[types.Bool]).T)
+	}
+	if os.Getenv("VCGO_DEBUG") != "" {
+		fmt.Fprintf(os.Stderr, "   pending |= %.300s\n", p)
+	}
+	st.ghost["pending"] = tOr(c.ghostTerm(st, "pending"), p)
 }
 
 func (c *FnCtx) ghostTerm(st *State, name string) string {
